@@ -363,6 +363,8 @@ class Tokenizer:
                     # other case citation. See #221 and #174
                     citation_tokens.pop(-1)
                     all_tokens.pop(-1)
+                    # the popped token no longer covers its text: resume from its start
+                    offset = last_token.start
                 else:
                     # skip overlaps
                     continue
